@@ -775,8 +775,10 @@ def _family(pl_dtype):
 
     if pl_dtype.is_integer():
         return "int"
-    if pl_dtype.is_float() or pl_dtype.is_decimal():
+    if pl_dtype.is_float():
         return "float"
+    if pl_dtype.is_decimal():
+        return "decimal"
     if pl_dtype == pl.Boolean:
         return "bool"
     if pl_dtype == pl.String:
@@ -839,8 +841,19 @@ def type_obligations(tp: Template, b: Built, cfg: Cfg, rng: random.Random) -> li
                 kind = rel.data[n][0].ty if rel.data[n] else "null"
                 fam = "null" if type(st[n]).__name__ == "NullType" else ("num" if (st[n].is_int() or st[n].is_float()) else "bool" if st[n] == pdt.Bool() else "str" if isinstance(st[n], pdt.String) else str(st[n]))
                 ok = kind == "null" or (fam == "num" and kind in ("int", "real", "bool")) or (fam == "bool" and kind == "bool") or (fam == "str" and kind == "str") or fam == "null" or (fam, kind) in (("Date", DATE), ("Datetime", DT))
+                # numeric family: SQLite returns the chosen argument of coalesce / CASE / min / max
+                # with its own storage class and SQLAlchemy turns Numeric-typed results into
+                # Decimals, so what makes a Float column a float column *for every table* is the
+                # Float result type of the real Select (its processor converts integers); without
+                # a numeric result type the modelled storage kind decides
+                rk = (b.extras.get("sqlite:result_kinds") or {}).get(n, "?")
+                if ok and fam == "num" and rk != "?":
+                    if st[n].is_float():
+                        ok = rk == "float" or (rk is None and kind == "real")
+                    elif st[n].is_int():  # no processor converts a REAL to an integer
+                        ok = kind in ("int", "bool")
                 if not ok:
-                    bad[n] = (str(st[n]), kind)
+                    bad[n] = (str(st[n]), kind, f"result type of the Select: {rk}")
             o.status = "structural-ok" if not bad else "structural-fail"
             o.detail = {"mismatch": bad}
         except Exception as e:  # noqa: BLE001
@@ -880,7 +893,9 @@ def type_obligations(tp: Template, b: Built, cfg: Cfg, rng: random.Random) -> li
                 if be == "polars":
                     ok = got == want
                 else:
-                    ok = _family(got) == _family(want) or (allnull and _family(got) == "null") or ({_family(got), _family(want)} <= {"int", "float"})
+                    # "up to the numeric family": widths may differ, but an Int column is an integer
+                    # column and a Float column a floating-point column (not Int64, not Decimal)
+                    ok = _family(got) == _family(want) or (allnull and _family(got) == "null")
                 if not ok:
                     bad = {"inputs": inputs, "column": n, "static": str(st[n]), "exported": str(got)}
             # re-import and collect reproduce the exported types
